@@ -3,6 +3,7 @@ package main
 import (
 	"fmt"
 	"os"
+	"strconv"
 	"strings"
 	"unicode"
 )
@@ -103,12 +104,19 @@ func lexSpec(src string) ([]tok, error) {
 		case c == '"':
 			j := i + 1
 			for j < len(rs) && rs[j] != '"' {
+				if rs[j] == '\\' && j+1 < len(rs) {
+					j++ // an escaped rune (\" \\ \n ...) never ends the literal
+				}
 				j++
 			}
 			if j >= len(rs) {
 				return nil, fmt.Errorf("unterminated string in %q", src)
 			}
-			toks = append(toks, tok{"str", string(rs[i+1 : j])})
+			lit := string(rs[i+1 : j])
+			if u, err := strconv.Unquote("\"" + lit + "\""); err == nil {
+				lit = u // the same string value as the Go literal with this text
+			}
+			toks = append(toks, tok{"str", lit})
 			i = j + 1
 		default:
 			three := ""
